@@ -170,6 +170,25 @@ def check_flatten_and_predicates(ctx):
                     "a subtree matching L may be taken apart, or a non-matching one kept whole")
     else:
         ctx.ok("C08.2", f.qualname, f"flatten predicate and check predicate are the same function (`{norm(same[0].value)}`)")
+    # ... and nowhere on the typed side is the *check* predicate re-defined as something that can accept a leaf without running the
+    # acceptor on it now (`return id(x) in accepted or is_leaftype(x)`: what `is_leaf` answered during the flatten is shallow for every
+    # leaf type that contains an array annotation -- the flatten-time short cut of the array check)
+    for d_ in [y for x in typed_side for y in ast.walk(x) if isinstance(y, ast.FunctionDef) and y.name == "is_check_leaftype"]:
+        rets_ = [y for y in ast.walk(d_) if isinstance(y, ast.Return) and y.value is not None]
+        p0 = d_.args.args[0].arg if d_.args.args else None
+        for rt in rets_:
+            v_ = rt.value
+            if isinstance(v_, ast.Call) and norm(v_.func) in ("is_leaftype", "accepts_leaftype") and [norm(a) for a in v_.args] == [p0]:
+                continue
+            if isinstance(v_, ast.BoolOp) and isinstance(v_.op, ast.Or) and any(isinstance(o_, ast.Call) and norm(o_.func) == "is_leaftype" for o_ in v_.values):
+                other = [norm(o_) for o_ in v_.values if not (isinstance(o_, ast.Call) and norm(o_.func) == "is_leaftype")]
+                ctx.bad("C08.2", f, rt, f"the predicate that checks the leaves accepts a leaf on `{' or '.join(other)}` without running the type-checked acceptor on it after the flatten: "
+                        "the answer given while flattening is shallow for leaf types that contain an array annotation (only the array type was looked at), so leaves of any "
+                        "dtype / shape are accepted and bind nothing", construct="check predicate short-cuts the acceptor")
+            elif isinstance(v_, ast.Constant) and v_.value is True:
+                ctx.bad("C08.2", f, rt, "the predicate that checks the leaves of a typed PyTree accepts unconditionally", construct="check predicate returns True")
+            else:
+                raise AnalysisError(f"C08.2: the check predicate is re-defined on the typed side (`{short(rt, 60)}`); what it accepts is not decided")
     # Any side: constants
     consts = {}
     for x in any_side:
